@@ -311,49 +311,51 @@ def vectors(res, base, rnd):
         if f["flags"] != "ok" and f["edition"] != "none":
             unreal += 1          # one --rust-target per command line: the edition pair cannot be given as well
             continue
-        cd = os.path.join(d, "v%03d" % i)
-        os.makedirs(cd, exist_ok=True)
-        text = BAD_H if f["clang"] == "reject" else GOOD_H
-        hp = os.path.join(cd, "in.h")
-        if f["path"] == "ok":
-            if i % 3 == 2:      # a symbolic link to a readable header is a readable header
-                open(hp + ".real", "w").write(text)
-                os.symlink(hp + ".real", hp)
-            else:
+        # path kinds that can also be reached through a symbolic link are materialised both ways
+        for sym in ([False, True] if f["path"] in ("ok", "dir", "missing") else [False]):
+            cd = os.path.join(d, "v%03d%s" % (i, "s" if sym else ""))
+            os.makedirs(cd, exist_ok=True)
+            text = BAD_H if f["clang"] == "reject" else GOOD_H
+            hp = os.path.join(cd, "in.h")
+            if f["path"] == "ok":
+                if sym:             # a symbolic link to a readable header is a readable header
+                    open(hp + ".real", "w").write(text)
+                    os.symlink(hp + ".real", hp)
+                else:
+                    open(hp, "w").write(text)
+            elif f["path"] == "dir":
+                if sym:             # a symbolic link to a directory is a directory
+                    os.makedirs(hp + ".d", exist_ok=True)
+                    os.symlink(hp + ".d", hp)
+                else:
+                    os.makedirs(hp, exist_ok=True)
+            elif f["path"] == "missing" and sym:
+                os.symlink(hp + ".nowhere", hp)      # a dangling symbolic link does not exist
+            elif f["path"] == "unreadable":
                 open(hp, "w").write(text)
-        elif f["path"] == "dir":
-            if i % 2 == 1:      # a symbolic link to a directory is a directory
-                os.makedirs(hp + ".d", exist_ok=True)
-                os.symlink(hp + ".d", hp)
-            else:
-                os.makedirs(hp, exist_ok=True)
-        elif f["path"] == "missing" and i % 2 == 1:
-            os.symlink(hp + ".nowhere", hp)      # a dangling symbolic link does not exist
-        elif f["path"] == "unreadable":
-            open(hp, "w").write(text)
-            os.chmod(hp, [0o000, 0o200, 0o111, 0o333][i % 4])
-        elif f["path"] == "denied":
-            open(hp, "w").write(text)
-            os.chown(hp, 65534, 0)
-            os.chmod(hp, [0o040, 0o004, 0o044][i % 3])     # owner class has no read bit: access denied to the owner
-        args = ["bindgen", "--formatter=none"]
-        if f["flags"] == "invalid":
-            args += INVALID_FLAGS[i % len(INVALID_FLAGS)]
-        elif f["flags"] == "nightly0":
-            args += ["--rust-target", ["1.0-nightly", "1.0.0-nightly", "1.0.5-nightly"][i % 3]]
-        args += EDITION[f["edition"]][i % len(EDITION[f["edition"]])] if f["flags"] == "ok" else []
-        args += OPTION_SETS[i % len(OPTION_SETS)]
-        if f["codegen"] == "fail":
-            blocker = os.path.join(cd, "blocker")
-            open(blocker, "w").write("not a directory\n")
-            args += ["--experimental", "--wrap-static-fns", "--wrap-static-fns-path", os.path.join(blocker, "sub", "wrappers")]
-        args.append(hp)
-        if f["clang"] == "refuse":
-            args += ["--"] + CLANG_ARG_FAULTS[i % len(CLANG_ARG_FAULTS)]
-        cases.append({"id": "vec-%03d" % i, "args": args, "facts": dict(f), "predicted": v["outcome"], "dir": cd,
-                      "header": hp, "shape": "fault-vector", "text": text,
-                      "prefix": NOBODY if f["path"] == "denied" else (),
-                      "lib": f["flags"] == "ok"})      # clap exits the process on a rejected flag value: CLI only
+                os.chmod(hp, [0o000, 0o200, 0o111, 0o333][i % 4])
+            elif f["path"] == "denied":
+                open(hp, "w").write(text)
+                os.chown(hp, 65534, 0)
+                os.chmod(hp, [0o040, 0o004, 0o044][i % 3])     # owner class has no read bit: access denied to the owner
+            args = ["bindgen", "--formatter=none"]
+            if f["flags"] == "invalid":
+                args += INVALID_FLAGS[i % len(INVALID_FLAGS)]
+            elif f["flags"] == "nightly0":
+                args += ["--rust-target", ["1.0-nightly", "1.0.0-nightly", "1.0.5-nightly"][i % 3]]
+            args += EDITION[f["edition"]][i % len(EDITION[f["edition"]])] if f["flags"] == "ok" else []
+            args += OPTION_SETS[i % len(OPTION_SETS)]
+            if f["codegen"] == "fail":
+                blocker = os.path.join(cd, "blocker")
+                open(blocker, "w").write("not a directory\n")
+                args += ["--experimental", "--wrap-static-fns", "--wrap-static-fns-path", os.path.join(blocker, "sub", "wrappers")]
+            args.append(hp)
+            if f["clang"] == "refuse":
+                args += ["--"] + CLANG_ARG_FAULTS[i % len(CLANG_ARG_FAULTS)]
+            cases.append({"id": "vec-%03d%s" % (i, "s" if sym else ""), "args": args, "facts": dict(f), "predicted": v["outcome"], "dir": cd,
+                          "header": hp, "shape": "fault-vector", "text": text,
+                          "prefix": NOBODY if f["path"] == "denied" else (),
+                          "lib": f["flags"] == "ok"})      # clap exits the process on a rejected flag value: CLI only
     return cases, len(vecs), unreal
 
 
